@@ -23,6 +23,35 @@ thread_local! {
 thread_local! {
   pub static SUBJECTS: RefCell<Vec<(usize, Subject<'static, Val, Val>)>> = RefCell::new(vec![]);
   pub static SUBJECTS_T: RefCell<Vec<(usize, SubjectThreads<Val, Val>)>> = RefCell::new(vec![]);
+  /// tags of Subject inputs that have sibling subscribers of the harness's own (kind 2)
+  pub static SIBLINGS: RefCell<Vec<usize>> = RefCell::new(vec![]);
+}
+
+/// a subscriber that ignores everything: the sibling subscribers of a Subject input
+#[derive(Clone, Copy)]
+pub struct Dummy;
+impl Observer<Val, Val> for Dummy {
+  fn next(&mut self, _v: Val) {}
+  fn error(self, _e: Val) {}
+  fn complete(self) {}
+  fn is_finished(&self) -> bool {
+    false
+  }
+}
+fn has_siblings(tag: usize) -> bool {
+  SIBLINGS.with(|s| s.borrow().contains(&tag))
+}
+/// Subscribe one more, live, sibling to the Subject input `tag` (after the harness's own subscription).
+pub fn add_late_sibling(tag: usize) {
+  if !has_siblings(tag) {
+    return;
+  }
+  if let Some(s) = SUBJECTS.with(|h| h.borrow().iter().find(|(t, _)| *t == tag).map(|(_, s)| s.clone())) {
+    std::mem::forget(s.actual_subscribe(Dummy));
+  }
+  if let Some(s) = SUBJECTS_T.with(|h| h.borrow().iter().find(|(t, _)| *t == tag).map(|(_, s)| s.clone())) {
+    std::mem::forget(s.actual_subscribe(Dummy));
+  }
 }
 
 pub fn reset_handles() {
@@ -30,6 +59,7 @@ pub fn reset_handles() {
   let b = HANDLES_T.with(|h| std::mem::take(&mut *h.borrow_mut()));
   let c = SUBJECTS.with(|h| std::mem::take(&mut *h.borrow_mut()));
   let d = SUBJECTS_T.with(|h| std::mem::take(&mut *h.borrow_mut()));
+  SIBLINGS.with(|s| s.borrow_mut().clear());
   let _ = std::panic::catch_unwind(std::panic::AssertUnwindSafe(move || {
     drop(a);
     drop(b);
@@ -38,13 +68,19 @@ pub fn reset_handles() {
   }));
 }
 
-/// Hot input of either kind: a parked `create` subscriber handle (kind 0) or a Subject (kind 1).
+/// Hot input of either kind: a parked `create` subscriber handle (kind 0), a Subject (kind 1), or a Subject that
+/// already has an earlier subscriber which has left again and still occupies its slot (kind 2; the harness may add
+/// a later live one with `add_late_sibling`). The pipeline under test is then one subscriber among several.
 pub fn hot_kind(tag: usize, kind: u32) -> Obs {
   if kind == 0 {
     hot_tagged(tag)
   } else {
     let s: Subject<'static, Val, Val> = Subject::default();
     SUBJECTS.with(|h| h.borrow_mut().push((tag, s.clone())));
+    if kind == 2 {
+      SIBLINGS.with(|x| x.borrow_mut().push(tag));
+      s.clone().actual_subscribe(Dummy).unsubscribe();
+    }
     s.box_it()
   }
 }
@@ -54,6 +90,10 @@ pub fn hot_kind_t(tag: usize, kind: u32) -> ObsT {
   } else {
     let s: SubjectThreads<Val, Val> = SubjectThreads::default();
     SUBJECTS_T.with(|h| h.borrow_mut().push((tag, s.clone())));
+    if kind == 2 {
+      SIBLINGS.with(|x| x.borrow_mut().push(tag));
+      s.clone().actual_subscribe(Dummy).unsubscribe();
+    }
     s.box_it()
   }
 }
@@ -71,7 +111,7 @@ pub fn feed_hot(tag: usize, ev: &crate::world::Ev) -> bool {
   }
   let s = SUBJECTS.with(|h| h.borrow().iter().find(|(t, _)| *t == tag).map(|(_, s)| s.clone()));
   if let Some(mut s) = s {
-    if s.is_empty() {
+    if !has_siblings(tag) && s.is_empty() {
       return false; // nobody is subscribed (yet): a hot source's event is lost
     }
     match ev {
@@ -95,7 +135,7 @@ pub fn feed_hot_t(tag: usize, ev: &crate::world::Ev) -> bool {
   }
   let s = SUBJECTS_T.with(|h| h.borrow().iter().find(|(t, _)| *t == tag).map(|(_, s)| s.clone()));
   if let Some(mut s) = s {
-    if s.is_empty() {
+    if !has_siblings(tag) && s.is_empty() {
       return false;
     }
     match ev {
